@@ -163,7 +163,14 @@ impl Elem for String {
 }
 
 fn build<T: Elem>(c: &Case) -> (Vec<T>, Vec<T>, usize) {
-    let a: Vec<T> = c.base.iter().map(|w| T::decode(*w)).collect();
+    // one case in 512: vectors of 65 536 .. 135 535 positions (the base pattern repeated), nearly all of them equal
+    let long = c.base[0] % 512 == 7 && c.other_len.is_none();
+    let a: Vec<T> = if long {
+        let len = 65_536 + (c.base[0] >> 9) as usize % 70_000;
+        (0..len).map(|i| T::decode(c.base[i % c.base.len()].wrapping_add((i / c.base.len()) as u64))).collect()
+    } else {
+        c.base.iter().map(|w| T::decode(*w)).collect()
+    };
     let mut b = a.clone();
     let n = a.len();
     let mut flipped: BTreeSet<usize> = BTreeSet::new();
